@@ -548,6 +548,11 @@ func (w *dynWorld) history(c *Ctx) []dynCall {
 
 func (w *dynWorld) history0(c *Ctx) []dynCall {
 	n := 6 + c.W(11)
+	if c.W(12) == 0 {
+		// a long life: a few hundred calls on one Resolved (whatever a call leaves behind when it
+		// ends in an error accumulates)
+		n = 150 + c.W(250)
+	}
 	var out []dynCall
 	for i := 0; i < n && w.SameInst; i++ {
 		if c.W(10) == 0 {
